@@ -5,8 +5,8 @@
 // repository by tools/genglobals; this file is only compiled for C18.
 package globals
 
-import "github.com/cocosip/go-dicom-codecs/verifhook"
+import "github.com/cocosip/go-dicom-codecs/verifglobals"
 
 const Enabled = true
 
-func Snapshot() map[string]uint64 { return verifhook.Snapshot() }
+func Snapshot() map[string]uint64 { return verifglobals.Snapshot() }
